@@ -449,10 +449,11 @@ PROPS["C01"] = dict(
 
 PROPS["C03"] = dict(
     title="Every transaction ends in bounded time, whatever the peer and the link do",
-    module="Cfdp.Props.C03b",
+    module="Cfdp.Props.C03t",
     namespace="Cfdp.Loop",
     theorems=["C03_recv_never_stuck", "C03_send_never_stuck", "Cfdp.Recv.C03_recv_inactivity_limit",
-              "C03_send_bounded_work", "C03_send_drains", "C03_send_bounded_time"],
+              "C03_send_bounded_work", "C03_send_drains", "C03_send_bounded_time",
+              "C03_recv_drains", "C03_recv_bounded_wakeups", "C03_recv_bounded_time"],
     engines=["recv", "send", "net", "daemon"],
     design="§6 C03",
     technique="Lean 4 invariant proofs over all event histories of the receiver and sender models (a timer is always running or a PDU is queued) + limit-to-termination step theorems; bounded termination of the real state machines checked by a drain phase on the virtual clock",
@@ -471,6 +472,14 @@ PROPS["C03"] = dict(
                 "that only timer wake-ups use up bounds the clock: the loop is over by now + tau x max(ACK timeout, inactivity timeout), however many iterations are "
                 "played (C03_send_bounded_time, using C17's start <= now invariant for the length of each sleep). Hypotheses: positive timeouts, segment size 1..65535, "
                 "limit faults not configured Ignore (C03's own exemption). "
+                "The receiver's bound is a theorem too (Props/C03r.lean, Props/C03t.lean): a potential phi (by phase: twice the expirations the inactivity and positive-ACK "
+                "counters can still count, the NAK counter's room - or 2 x limit + 4 while new data since the last NAK will reset it -, the delayed NAK checks pending, a "
+                "NAK timer still to be stopped, a Prompt still to be answered) is raised by no iteration of the loop left alone and drops with every timer wake-up "
+                "(C03_recv_bounded_wakeups: phi <= 10 + 8 x limit + delayed checks pending); transmissions use up the lexicographic measure (phi, Prompt to answer, ACK + "
+                "queued requests + Finished flag), so the loop leaves the Active state after finitely many iterations (C03_recv_drains, well-founded recursion); and since a "
+                "sleep is never longer than the inactivity period the clock never passes now + phi x inactivity timeout (C03_recv_bounded_time). The invariants it needs "
+                "hold after every history from RecvTransaction::new: counters within the limit with constant positive periods (RT), the positive-ACK timer not running "
+                "while collecting (AckP - without it a due ACK timer would make the loop spin), delayed checks running (DelOk), inactivity timer running (Act). "
                 "Checked on the real code only (not a theorem): the engines end every history with a drain phase - the peer silent for good from a random point of the "
                 "exchange on - that plays the task loop on the virtual clock (send while has_pdu_to_send, else sleep until_timeout and handle_timeout) and require Terminated "
                 "within 4 x (limit+1) x (sum of timeouts), never an infinite sleep (never_stuck) and never more than 5000 iterations (spinning). This drain found F33 and F34."),
@@ -480,7 +489,7 @@ PROPS["C03"] = dict(
           "phase. Oracles never_stuck, bounded. Non-trivial = a PDU was emitted or an indication raised."
           " net engine (300 quick / 3000 thorough two-party histories): one real SendTransaction and one real RecvTransaction joined by a simulated link that delivers only PDUs the other side emitted (in order, lost, duplicated, reordered, as stragglers), random schedules of transmissions, deliveries, timer expiries and user requests at both sides, then a loss-free fair phase on the shared virtual clock until both have ended; every call is answered in lockstep by the Lean sender and receiver models (ops net s / net r), the per-side oracles of the send / recv engines keep running, and two-party oracles are added: C02 recovers / same_outcome (acknowledged mode, losses confined to a zero-time phase, default handlers: both sides report success), C03 net_bounded / net_never_stuck, C04 sender_success_only_after_receiver, C01 two_party_file."),
     assumptions=["the runtime wakes the task when the computed sleep is over (tokio timers) and grants the link when asked (bounded channel with a live consumer)"],
-    unproved=["the receiver's numeric bound as a theorem (termination measure over NAK queue, delayed windows, three counters and phases); the sender's is proved, the receiver's is checked by the drain oracle bounded"],
+    unproved=["the number of transmissions of the receiver between two wake-ups is finite (C03_recv_drains) but not bounded by a closed formula (it is the length of the rebuilt request queue)"],
 )
 
 PROPS["C15"] = dict(
